@@ -223,6 +223,15 @@ class ExprMixin:
             return const(py)
         except ValueError:
             pass
+        try:
+            from .flow import const_eval
+
+            py = const_eval(mod, expr)
+            if isinstance(py, (frozenset, set, dict, list)):
+                return VConst(_Frozen(py))
+            return const(py)
+        except (ValueError, RecursionError, KeyError):
+            pass
         if isinstance(expr, ast.Call):
             f = ast.unparse(expr.func)
             if f in ("re.compile",) :
